@@ -86,6 +86,42 @@ def labels(rng):
     return out
 
 
+def order_dict(rng, depth=2):
+    """A dictionary whose keys are related as text: one key is a prefix of another and is followed there by
+    '-', '_', a digit or an upper-case letter; the shorter key often has children (so that 'k.child' lies between
+    'k' and 'k-x' in path-text order but not in walk order); insertion order is shuffled."""
+    stem = rng.choice(["net", "opt", "k", "ab", "v6"])
+    keys = [stem] + rng.sample([stem + "-v6", stem + "_2", stem + "0", stem + "-", stem + "Z", stem + "a", stem + "--x",
+                                stem + "_", stem + "-0"], rng.choice([1, 2, 3]))
+    if rng.random() < 0.3:
+        keys.append(rng.choice(KEY_POOL))
+    rng.shuffle(keys)
+    d = {}
+    for k in keys:
+        r = rng.random()
+        if k == stem and r < 0.75 and depth > 0:
+            d[k] = rng.choice([{"port": 443}, {"a": 1, "z": {"q": "v"}}, ["x", "y"], order_dict(rng, depth - 1)])
+        elif r < 0.25 and depth > 0:
+            d[k] = order_dict(rng, depth - 1)
+        elif r < 0.4:
+            d[k] = long_list(rng)
+        else:
+            d[k] = rng.choice(["enabled", 1, "v", True, 2.5])
+    return d
+
+
+def long_list(rng, deep=True):
+    """11-13 distinct truthy elements, so that indices of two digits exist ('[10]' sorts before '[2]' as text);
+    the last elements are sometimes containers."""
+    n = rng.choice([11, 12, 13])
+    out = ["e%02d" % i for i in range(n)]
+    if deep and rng.random() < 0.5:
+        out[rng.choice([10, n - 1])] = rng.choice([{"k": "v", "kk": ["p", "q"]}, {"key": {"n0": 1}}])
+    if deep and rng.random() < 0.2:
+        out[1] = {"k": "first"}
+    return out
+
+
 # ---------------------------------------------------------------- objects
 
 def base(rng, typ, v21):
@@ -220,6 +256,15 @@ def gen_build(rng, how=None, want_markings=True):
         if v21 and rng.random() < 0.25:
             d["extensions"] = {"extension-definition--" + uuid(rng): {
                 "extension_type": "property-extension", "rank": rng.choice([0, 5]), "toxicity": rng.choice(["", "t"])}}
+        # content that is sensitive to the order in which paths are enumerated / compared
+        if rng.random() < 0.3:
+            d["x_opts"] = order_dict(rng)
+        if rng.random() < 0.25:
+            d["x_list"] = long_list(rng)
+        if rng.random() < 0.2:
+            d["labels"] = ["label-%02d" % i for i in range(rng.choice([11, 12, 13]))]
+        if how == "dict" and rng.random() < 0.15:
+            d["name-2"] = "n2"                                 # a sibling of `name` that extends it with '-'
         # custom properties, prefix-related names
         r = rng.random()
         if r < 0.55:
@@ -241,6 +286,10 @@ def gen_build(rng, how=None, want_markings=True):
     if how != "dict":
         # the constructor drops None / [] valued properties and rejects None inside custom content? keep them:
         pass
+    if how == "dict" and rng.random() < 0.3:
+        items = list(d.items())
+        rng.shuffle(items)
+        d = dict(items)
     if want_markings:
         if rng.random() < 0.45:
             n = rng.choice([1, 1, 2])
@@ -501,3 +550,10 @@ def near_misses(rng, tree, paths, limit):
             seen.add(c)
             res.append(c)
     return res
+
+
+def priority_selector(sel):
+    """Selectors whose acceptance depends on enumeration / comparison order: indices of two or more digits,
+    anything under the order-sensitive custom content."""
+    import re
+    return bool(re.search(r"\[\d\d+\]", sel)) or sel.startswith("x_opts") or sel.startswith("x_list") or sel.startswith("name-")
